@@ -16,6 +16,8 @@ pub fn scenario(tier: &str) -> (Life, Bounds) {
         property: "C02",
         poor: None,
         money_devs: false,
+        precommits: th,
+        horizon: None,
     };
     let b = if th {
         Bounds { max_depth: 400, wall_cap_s: 1500.0, ..Default::default() }
@@ -23,6 +25,32 @@ pub fn scenario(tier: &str) -> (Life, Bounds) {
         Bounds { max_depth: 400, wall_cap_s: 45.0, ..Default::default() }
     };
     (Life { cfg }, b)
+}
+
+/// Two deviations inside the dispute window of a bad-proof PoSt (8 epochs).
+pub fn scenario_dispute(tier: &str) -> (Life, Bounds) {
+    let (mut l, mut b) = scenario(tier);
+    l.cfg.name = "c02-dispute";
+    l.cfg.bases = vec!["bad-post-closed", "bad-post-closed-2dl"];
+    l.cfg.devs = if tier_is_thorough(tier) { 3 } else { 2 };
+    l.cfg.horizon = Some(8);
+    l.cfg.precommits = false;
+    b.wall_cap_s = if tier_is_thorough(tier) { 600.0 } else { 30.0 };
+    (l, b)
+}
+
+/// Bursts: several deviations close together (short horizon), also from a pre-faulted base.
+pub fn scenario_burst(tier: &str) -> (Life, Bounds) {
+    let (mut l, mut b) = scenario(tier);
+    let th = tier_is_thorough(tier);
+    l.cfg.name = "c02-burst";
+    l.cfg.bases = vec!["one-deadline-aged-f12", "two-deadlines"];
+    l.cfg.devs = if th { 3 } else { 2 };
+    l.cfg.horizon = Some(if th { 10 } else { 7 });
+    l.cfg.precommits = false;
+    l.cfg.sector_sets = vec![vec![1], vec![2], vec![1, 2], vec![3]];
+    b.wall_cap_s = if th { 900.0 } else { 30.0 };
+    (l, b)
 }
 
 pub fn run(tier: &str) -> ! {
@@ -34,5 +62,9 @@ pub fn run(tier: &str) -> ! {
         "a second 'ballast' miner holds a large locked reward so that the network pledge total stays positive (see KF-1)".into(),
     ];
     run.add(mcx::explore(&scn, &b));
+    let (sb, bb) = scenario_burst(tier);
+    run.add(mcx::explore(&sb, &bb));
+    let (scn2, b2) = scenario_dispute(tier);
+    run.add(mcx::explore(&scn2, &b2));
     run.finish()
 }
